@@ -412,17 +412,24 @@ fn plan(property: &str, tier: &str) -> Vec<(&'static str, &'static str, usize)> 
                     ("bytes", "rb_raw+reads", 5),
                     ("pco", "dense+reads", 3),
                     ("bytes", "raw+reads", 4),
+                    // start states: three written values; one value short of a page
+                    ("bytes", "raw+reads+pre_w3", 3),
+                    ("pco", "dense+reads+pre_pm1", 3),
                 ]
             } else {
                 vec![
-                    ("bytes", "raw+reads", 4),
+                    ("bytes", "raw+reads", 5),
                     ("zerocopy", "raw+reads", 4),
-                    ("pco", "dense+reads", 4),
-                    ("lz4", "dense+reads", 3),
-                    ("zstd", "dense+reads", 3),
-                    ("eager_pco", "dense+reads", 3),
-                    ("bytes", "rb_raw+reads", 5),
-                    ("pco", "rb_dense+reads", 5),
+                    ("pco", "dense+reads", 5),
+                    ("lz4", "dense+reads", 4),
+                    ("zstd", "dense+reads", 4),
+                    ("eager_pco", "dense+reads", 4),
+                    ("eager_bytes", "dense+reads", 4),
+                    ("bytes", "raw+reads+pre_w3", 4),
+                    ("pco", "dense+reads+pre_pm1", 4),
+                    ("pco", "dense+reads+pre_p1", 4),
+                    ("bytes", "rb_raw+reads", 6),
+                    ("pco", "rb_dense+reads", 6),
                     ("bytes", "raw+holecursor", 3),
                 ]
             }
